@@ -201,7 +201,10 @@ class World:
         if ws.blocked:
             self.contended = True
         holders = [w for w in self.ws if w.state == HOLD]
-        if not ad.admissible(holders):
+        ad.granting = ws
+        ok = ad.admissible(holders)
+        ad.granting = None
+        if not ok:
             self.flag("over-admit", ad.admit_shape(self, ws),
                       f"at {tk(now)} {ws.name} was granted while "
                       f"{[(w.name, w.kind, w.amt) for w in holders if w is not ws]} still held: exceeds {ad.limit_text()}")
@@ -350,6 +353,7 @@ class Adapter:
     name = "?"
     ordered = True  # fifo / grant-late apply
     block_on_time = False
+    granting = None  # worker whose grant is being judged (None: head-of-line check at a clock advance)
 
     def __init__(self, cfg):
         self.cfg = cfg
@@ -442,16 +446,49 @@ class Adapter:
 
 
 class ResourceAd(Adapter):
+    """kinds: 'acq' / 'try' acquire ``amount``; 'cap' calls the public ``set_capacity(amount)``
+    (documented rule: shrinking never revokes grants, what is still held beyond the new capacity is
+    absorbed as it is released; so ``available == max(0, capacity - held)`` at all times and no NEW
+    grant may push the outstanding amount above the capacity in force)."""
+
     name = "Resource"
 
+    @property
+    def cap(self):
+        return pub(self.prim, "capacity", self.cfg["cap"])
+
     def build(self, W):
-        self.cap = self.cfg["cap"]
-        self.prim = Resource("res", self.cap)
+        self.prim = Resource("res", self.cfg["cap"])
+        self.cap_hist = [(0, self.cfg["cap"])]  # (log position, capacity in force from there on)
         return [self.prim]
+
+    def admissible(self, occ):
+        cap = self.cap
+        ws = self.granting
+        if ws is not None:
+            # the grant was decided somewhere between the request and now (the worker observes it one
+            # delivery later): judge it against the largest capacity in force in that interval
+            caps = [c for (pos, c) in self.cap_hist if pos >= ws.s_req]
+            before = [c for (pos, c) in self.cap_hist if pos < ws.s_req]
+            cap = max(caps + before[-1:])
+        return sum(w.amt for w in occ) <= cap
 
     def script(self, W, ws):
         res = self.prim
+        if ws.kind == "cap":
+            W.note(ws, "set_capacity", ws.amt)
+            res.set_capacity(ws.amt)
+            self.cap_hist.append((len(W.log), ws.amt))
+            ws.state = DONE
+            return None
         W.req(ws)
+        if ws.amt > self.cap:  # documented ValueError: larger than the capacity in force
+            try:
+                res.acquire(ws.amt)
+            except ValueError:
+                W.fail(ws)
+                return None
+            raise AssertionError("acquire(amount > capacity) did not raise")
         if ws.kind == "try":
             g = res.try_acquire(ws.amt)
             if g is None:
@@ -470,10 +507,33 @@ class ResourceAd(Adapter):
         return None
 
     def sample(self, W):
-        return self.sem_sample(W, self.cap, pub(self.prim, "available"), pub(self.prim, "waiters"))
+        cap, avail = self.cap, pub(self.prim, "available")
+        if avail is None:
+            return ()
+        out = []
+        if avail > cap:
+            out.append(("above-capacity", f"available={avail} > capacity={cap}"))
+        if avail < 0:
+            out.append(("over-admit", f"available={avail} < 0"))
+        lo, hi = sem_bounds(W, pub(self.prim, "waiters"))
+        if not max(0, cap - hi) <= avail <= max(0, cap - lo):
+            out.append(("conservation",
+                        f"available={avail} with capacity={cap} but the workers' grants/releases account for "
+                        f"{lo if lo == hi else (lo, hi)} held (available != max(0, capacity - held))"))
+        return out
 
     def final(self, W):
         return self.sem_final(W, self.cap, pub(self.prim, "available"))
+
+    def starved(self, W, left):
+        # strict FIFO: a head-of-line request larger than the capacity now in force can never be
+        # served and legitimately blocks the queue behind it (the statement is silent on that)
+        if left and min(left, key=lambda w: w.s_req).amt > self.cap:
+            return []
+        return left
+
+    def admit_shape(self, W, ws):
+        return "after-set-capacity" if any(k == "set_capacity" for (_t, k, _i, _x) in W.log) else W.tie_shape(ws)
 
 
 class SemaphoreAd(Adapter):
@@ -1231,14 +1291,17 @@ def fingerprints(W):
 # enumeration
 # ---------------------------------------------------------------------------
 def worker_alphabet(fields):
-    """fields: list of value lists in spec order (off, kind, amt, hold, hop[, prio, preempt])."""
+    """fields: list of value lists in spec order (off, kind, amt, hold, hop[, prio, preempt]),
+    or {"union": [fields, ...]} = concatenation of several such products."""
+    if isinstance(fields, dict):
+        return [x for f in fields["union"] for x in worker_alphabet(f)]
     return [tuple(x) for x in itertools.product(*fields)]
 
 
 def alphabets(fields, n):
     """Per-position alphabets: ``fields`` is one field list (same alphabet for every worker) or
     {"per_worker": [fields0, ...]} (worker i draws from fields_i)."""
-    if isinstance(fields, dict):
+    if isinstance(fields, dict) and "per_worker" in fields:
         return [worker_alphabet(f) for f in fields["per_worker"]]
     a = worker_alphabet(fields)
     return [a] * n
@@ -1510,6 +1573,28 @@ def drivers(tier):
             plans = [(1, sem_full), (2, sem_full), (3, sem_full), (4, sem_acq_nohop)]
         D.append((nm, prim, caps, plans))
 
+    # ---- Resource.set_capacity interleaved with acquire/release -----------------
+    def cap_mix(hops):
+        def f(cfg):
+            acq = [OFFS, ["acq"], amounts(cfg["cap"]), HOLDS, [0]]
+            ops = [OFFS, ["cap"], [1, 2, 3], [0], hops]  # shrink below/above held, grow, back to original
+            return {"union": [acq, ops]}
+        return f
+
+    def cap_sharp4(cfg):  # holder, two capacity changes, late acquirer (over-admission after shrink+grow)
+        a = amounts(cfg["cap"])
+        return {"per_worker": [[[0], ["acq"], a, [2], [0]],
+                               [[0, 1], ["cap"], [1, 2, 3], [0], [0, 1]],
+                               [[1, 2], ["cap"], [1, 2, 3], [0], [0, 1]],
+                               [[1, 2], ["acq"], a, [0, 1], [0, 1]]]}
+
+    capcfg = [{"cap": 2}, {"cap": 3}]
+    if q:
+        plans = [(2, cap_mix([0, 1])), (3, cap_mix([0])), (4, cap_sharp4)]
+    else:
+        plans = [(2, cap_mix([0, 1])), (3, cap_mix([0, 1])), (4, cap_mix([0]))]
+    D.append(("resource_setcap", "Resource", capcfg, plans))
+
     # ---- Mutex -----------------------------------------------------------------
     mfull = [OFFS, ["acq", "try"], [1], HOLDS, [0, 1]]
     macq = [OFFS, ["acq"], [1], HOLDS, [0, 1]]
@@ -1584,6 +1669,17 @@ def drivers(tier):
     else:
         plans = [(1, pr_full), (2, pr_full), (3, pr_full), (4, pr_sharp4)]
     D.append(("preemptible", "PreemptibleResource", prcfg, plans))
+
+    # equal-priority queue that partially drains before new arrivals (tie-break by arrival, capacity 1)
+    def pr_drain6(cfg):
+        def f(offs, holds, hops):
+            return [offs, ["acq"], [1], holds, hops, [0], [0]]
+        early = f([0, 1, 2], [1, 2], [0])
+        return {"per_worker": [f([0], [1], [0]), early, early, early,
+                               f([1, 2, 3, 4], [0, 1], [0, 1]),
+                               f([2, 3, 4] if q else [1, 2, 3, 4, 5], [1], [0] if q else [0, 1])]}
+
+    D.append(("preemptible_drain", "PreemptibleResource", [{"cap": 1}], [(6, pr_drain6)]))
     return D
 
 
